@@ -26,7 +26,7 @@ pub struct Entry {
     pub run_query: Option<RunMsg>,
 }
 
-fn run_rec<T: Deserr<RecA> + Dump>(src: Src, d: &Doc) -> Result<Doc, Vec<u32>> {
+pub fn run_rec<T: Deserr<RecA> + Dump>(src: Src, d: &Doc) -> Result<Doc, Vec<u32>> {
     let r: Result<T, RecA> = match src {
         Src::Json => deserr::deserialize::<T, serde_json::Value, RecA>(d.to_json()),
         Src::Ov => deserr::deserialize::<T, Doc, RecA>(d.clone()),
